@@ -3,8 +3,10 @@ module verifharness
 go 1.23
 
 require (
-	github.com/twpayne/go-geom v0.0.0
+	github.com/twpayne/go-geom v1.5.7
 	pgregory.net/rapid v1.3.0
 )
+
+require github.com/twpayne/go-kml/v3 v3.2.1 // indirect
 
 replace github.com/twpayne/go-geom => /repo
